@@ -15,6 +15,7 @@ import (
 	"io"
 	"os"
 	"path/filepath"
+	"strings"
 	"time"
 
 	"github.com/nspcc-dev/bbolt"
@@ -41,7 +42,7 @@ func (e *Epoch) CurrentEpoch() uint64 { return e.E }
 // payments is the container payments stub: payments disabled (no container is ever unpaid).
 type payments struct{}
 
-func (payments) PaymentsDisabled() bool             { return true }
+func (payments) PaymentsDisabled() bool            { return true }
 func (payments) UnpaidSince(cid.ID) (int64, error) { return -1, nil }
 
 // Stor wraps the real FSTree: every call is a scheduling point; writes may fail by plan.
@@ -53,6 +54,9 @@ type Stor struct {
 var ErrInjected = errors.New("injected blobstor failure")
 
 func (m Stor) pt(what string) {
+	if m.w.Counts != nil {
+		m.w.Counts[what]++
+	}
 	if m.w.OnStep != nil {
 		m.w.OnStep("blob." + what)
 	}
@@ -104,12 +108,16 @@ type Opts struct {
 	WriteCache   bool
 	Workers      int    // flush workers (default 1)
 	BatchCount   int    // write-cache flush batch count limit (default 2)
-	Threshold    uint64 // write-cache batch threshold (default 40)
+	Threshold    uint64 // write-cache batch threshold in marshaled bytes (default: empty-payload object + 30)
 	RmBatch      int    // GC remover batch size (default 100)
 	RemoverTicks bool   // let the GC remover timer fire (otherwise its interval never elapses... it is still armed once)
 	// EngineExpiredCallback installs the engine's handling of expired objects at shard level:
 	// skip locked objects, delete the others (mirrors StorageEngine.processExpiredObjects).
 	EngineExpiredCallback bool
+	// Build, when set, creates+opens+initialises the shard from the options (e.g. a real
+	// StorageEngine with this single shard, so that the engine's own expired-objects handling is
+	// the code under test); it returns the shard and a function closing the whole thing.
+	Build func(opts []shard.Option) (*shard.Shard, func(), error)
 }
 
 type World struct {
@@ -121,15 +129,22 @@ type World struct {
 	Opts   Opts
 	closed bool
 
+	// Counts, when non-nil, counts blobstor calls by name (vacuity evidence).
+	Counts map[string]int
 	// FailWrites decides whether a blobstor write fails (may call S.Choose).
 	FailWrites func(what string) bool
+	// Quiet suspends the metabase hook (harness reads of the live metabase from inside an observer).
+	Quiet bool
+	// OnMeta is called at the entry of every hooked metabase call with its arguments.
+	OnMeta func(name string, args []any)
+	closer func()
 	// OnStep is called at every blobstor / metabase call boundary (crash-image capture).
 	OnStep func(label string)
 }
 
-func (w *World) BlobDir() string { return filepath.Join(w.Root, "blob") }
+func (w *World) BlobDir() string  { return filepath.Join(w.Root, "blob") }
 func (w *World) MetaPath() string { return filepath.Join(w.Root, "meta") }
-func (w *World) WCDir() string   { return filepath.Join(w.Root, "wc") }
+func (w *World) WCDir() string    { return filepath.Join(w.Root, "wc") }
 
 func metaOpts(path string, ep *Epoch) []meta.Option {
 	return []meta.Option{
@@ -150,20 +165,46 @@ func New(s *sched.S, root string, o Opts) (*World, error) {
 		o.BatchCount = 2
 	}
 	if o.Threshold == 0 {
-		o.Threshold = 40
+		// the write-cache sizes objects by their marshaled length (header included): objects with a
+		// payload of up to ~25 bytes are "small" (batched), a payload of 60 bytes is "big" (flushed alone)
+		o.Threshold = uint64(len(Obj(0, 0).Marshal())) + 30
 	}
 	if o.RmBatch == 0 {
 		o.RmBatch = 100
 	}
-	w := &World{S: s, Root: root, Epoch: &Epoch{}, Opts: o}
+	w := &World{S: s, Root: root, Epoch: &Epoch{}, Opts: o, Counts: map[string]int{}}
 	w.FST = fstree.New(fstree.WithPath(w.BlobDir()), fstree.WithDepth(1), fstree.WithPerm(0o700),
 		fstree.WithCombinedCountLimit(1), fstree.WithNoSync(true))
 	meta.VerifHook = func(db *meta.DB, name string, args []any) ([]any, bool) {
+		if w.Quiet {
+			return nil, false
+		}
+		if w.OnMeta != nil {
+			w.OnMeta(name, args)
+		}
 		if w.OnStep != nil {
 			w.OnStep("meta." + name)
 		}
 		if s := sched.Active(); s != nil {
 			s.Point("meta." + name)
+		}
+		return nil, false
+	}
+	// every file operation of the write-cache's own FSTree is a scheduling point and a step boundary
+	// (the blobstor FSTree is wrapped by Stor, harness-owned trees are not touched)
+	wcDir := w.WCDir()
+	fstree.VerifHook = func(t *fstree.FSTree, name string, args []any) ([]any, bool) {
+		if w.Quiet || t == w.FST || !strings.HasPrefix(t.RootPath, wcDir) {
+			return nil, false
+		}
+		if w.Counts != nil {
+			w.Counts["wc."+name]++
+		}
+		if w.OnStep != nil {
+			w.OnStep("wc." + name)
+		}
+		if s := sched.Active(); s != nil {
+			s.Point("wc." + name)
 		}
 		return nil, false
 	}
@@ -189,6 +230,15 @@ func New(s *sched.S, root string, o Opts) (*World, error) {
 			}
 		}))
 	}
+	if o.Build != nil {
+		// the shard is created, opened and initialised by its owner (the real storage engine)
+		sh, closer, err := o.Build(opts)
+		if err != nil {
+			return nil, err
+		}
+		w.Sh, w.closer = sh, closer
+		return w, nil
+	}
 	w.Sh = shard.New(opts...)
 	if err := w.Sh.Open(); err != nil {
 		return nil, err
@@ -206,14 +256,23 @@ func (w *World) Close() {
 		return
 	}
 	w.closed = true
+	if os.Getenv("VERIF_DEBUG_COUNTS") != "" && w.Counts != nil {
+		fmt.Fprintf(os.Stderr, "COUNTS PutBatch=%d Put=%d\n", w.Counts["PutBatch"], w.Counts["Put"])
+	}
 	if sched.Active() == nil {
 		defer func() { recover() }()
 		meta.VerifHook = nil
+		fstree.VerifHook = nil
 		w.Sh.VerifSSMetabase().Close()
 		return
 	}
-	w.Sh.Close()
+	if w.closer != nil {
+		w.closer()
+	} else {
+		w.Sh.Close()
+	}
 	meta.VerifHook = nil
+	fstree.VerifHook = nil
 }
 
 // ---- objects ----
